@@ -59,6 +59,22 @@ pub fn fam_for(tier: Tier, prop: &str) -> Vec<CaseSpec> {
             }
         }
     }
+    // kinematic units: every 9th configuration again with all momenta and masses x 2^-30, every 9th x 2^24
+    let n0 = v.len();
+    for i in 0..n0 {
+        let unit = match i % 9 {
+            4 => 1,
+            7 => 2,
+            _ => continue,
+        };
+        if v[i].g.externals.is_empty() && !v[i].g.massive.iter().any(|m| *m) {
+            continue;
+        }
+        let mut c = v[i].clone();
+        c.mom_variant += 10 * unit;
+        c.label = "units".into();
+        v.push(c);
+    }
     if tier == Tier::Quick {
         // a few larger named graphs in the quick tier as well: kite (2 loops, 5 edges), 3-loop banana
         let extra = family(&FamOpts {
@@ -196,7 +212,12 @@ pub fn explore(plan: &Plan, f: &PointFn) -> Acc {
                 }
                 _ => sector_points(&case, order, plan.k, &plan.roles),
             };
-            for (x, ndev) in &pts {
+            for (pi, (x, ndev)) in pts.iter().enumerate() {
+                // large exact-arithmetic cases can spend minutes inside ONE sector: the wall-clock cap is honoured here too
+                if pi % 16 == 15 && time_up() {
+                    acc.inc("items_skipped_by_time_cap");
+                    break;
+                }
                 for r in std::iter::once(&base).chain(routings.iter()).chain(orbit_routed.iter()) {
                     let po = observe_point(&case, r, x, &plan.settings);
                     acc.inc("executions");
@@ -891,6 +912,9 @@ pub fn run_c02(ctx: &Ctx) -> i32 {
         basis_orbit_min_loops: 3,
     };
     let mut acc = explore(&plan, &c02_point);
+    acc.merge(inplace_pass(&plan.cases, &plan.settings, &c02_point));
+    acc.merge(large_pass(&plan, tier, &c02_point));
+    acc.violations.sort_by(|a, b| (a.key.as_str(), a.what.as_str()).cmp(&(b.key.as_str(), b.what.as_str())));
     sample_from_plan(&plan, &mut acc);
     let fin = Finish {
         level: "model_checking",
@@ -1244,6 +1268,11 @@ pub fn run_simple(ctx: &Ctx) -> i32 {
         _ => unreachable!(),
     };
     let mut acc = explore(&plan, f);
+    acc.merge(inplace_pass(&plan.cases, &plan.settings, f));
+    if prop != "C13" {
+        acc.merge(large_pass(&plan, tier, f));
+    }
+    acc.violations.sort_by(|a, b| (a.key.as_str(), a.what.as_str()).cmp(&(b.key.as_str(), b.what.as_str())));
     if prop == "C07" {
         match c07_nolog_pass(ctx) {
             Ok(a) => acc.merge(a),
@@ -1335,6 +1364,131 @@ pub fn run_simple(ctx: &Ctx) -> i32 {
         extra,
     };
     finish(ctx, &acc, fin)
+}
+
+/// SIZE LADDER pass: the configurations of `large_cases` (beyond 6 loops, 8 edges, 64 signature entries) on the fixed sector
+/// subset; per sector the default answers plus an evenly strided selection of the one-deviation answer sequences of the plan's
+/// roles (at most `max_pts`), in the base routing and - if the plan uses it - the sector's tropical routing.
+pub fn large_pass(plan: &Plan, tier: Tier, f: &PointFn) -> Acc {
+    let cases = large_cases(tier);
+    let max_pts = tier.pick(10usize, 60);
+    par_for(cases.len(), |i, acc| {
+        let case = match Case::new(&cases[i]) {
+            Some(c) => c,
+            None => {
+                acc.inc("large_cases_not_admissible");
+                return;
+            }
+        };
+        let base = match route_via(&case, &case.base_kin()) {
+            Ok(r) => r,
+            Err(_) => {
+                acc.inc("large_cases_not_built");
+                return;
+            }
+        };
+        acc.inc("large_cases");
+        acc.inc("cases");
+        if case.generic {
+            acc.inc("cases_generic_kinematics");
+        }
+        acc.hist("large_case_shape", &format!("{}-E{}L{}D{}", case.spec.label, case.g.ne(), case.nl, case.g.dim));
+        acc.hist("case_shape", &format!("E{}L{}D{}", case.g.ne(), case.nl, case.g.dim));
+        let t_case = std::time::Instant::now();
+        let ne = case.g.ne();
+        for order in sector_subset(ne, tier == Tier::Thorough && ne <= 10) {
+            if time_up() {
+                acc.inc("items_skipped_by_time_cap");
+                break;
+            }
+            acc.inc("sectors");
+            acc.inc("large_sectors");
+            let mut routings: Vec<Routed> = vec![];
+            if plan.tropical_routing {
+                if let Ok(r) = route_via(&case, &case.tropical_kin(&order)) {
+                    routings.push(r);
+                }
+            }
+            let all = sector_points(&case, &order, 1, &plan.roles);
+            let step = (all.len() + max_pts - 1) / max_pts;
+            for (pi, (x, ndev)) in all.iter().enumerate() {
+                if pi != 0 && pi % step.max(1) != 0 {
+                    continue;
+                }
+                for r in std::iter::once(&base).chain(routings.iter()) {
+                    let po = observe_point(&case, r, x, &plan.settings);
+                    acc.inc("executions");
+                    acc.inc("large_executions");
+                    acc.add("answers_consumed", x.len() as u64);
+                    acc.hist("outcome", &po.out.kind());
+                    f(&case, r, &po, *ndev, acc);
+                }
+            }
+        }
+        acc.max(&format!("case_seconds[E{}L{}]", case.g.ne(), case.nl), t_case.elapsed().as_secs_f64());
+    })
+}
+
+/// A history of length two at ONE memory address (all properties of the sampler engine): sampler A is sampled, the slot it
+/// lives in is overwritten by sampler B - another configuration (other dod, dimension, loop number, edge count) - and B is
+/// sampled there and judged by the property's own point function. Every case is B once behind its list neighbour and once
+/// behind a case 7 places away; the sector of B is the reversed identity so that this pass does not repeat `explore`.
+pub fn inplace_pass(cases: &[CaseSpec], st: &Settings, f: &PointFn) -> Acc {
+    let n = cases.len();
+    par_for(n, |i, acc| {
+        for off in [1usize, 7] {
+            if time_up() {
+                acc.inc("items_skipped_by_time_cap");
+                return;
+            }
+            let j = (i + off) % n;
+            if j == i {
+                continue;
+            }
+            // every history runs on a FRESH thread: thread-local state starts pristine, so the history (A sampled, slot
+            // overwritten by B, B sampled) is complete and a replay reproduces it exactly
+            std::thread::scope(|sc| {
+                let h = sc.spawn(|| inplace_pair(&cases[j], &cases[i], st, f, acc));
+                let _ = h.join();
+            });
+        }
+    })
+}
+
+fn inplace_pair(sa: &CaseSpec, sb: &CaseSpec, st: &Settings, f: &PointFn, acc: &mut Acc) {
+    let (ca, cb) = match (Case::new(sa), Case::new(sb)) {
+        (Some(a), Some(b)) => (a, b),
+        _ => return,
+    };
+    let mut slot: Vec<Routed> = match route(&ca, &ca.base_kin()) {
+        Ok(r) => vec![r],
+        Err(_) => return,
+    };
+    let oa: Vec<usize> = (0..ca.g.ne()).collect();
+    let xa = sector_defaults(&ca, &oa);
+    let _ = slot[0].sampler.sample(&xa, &slot[0].ed, st);
+    slot[0] = match route(&cb, &cb.base_kin()) {
+        Ok(r) => r,
+        Err(_) => return,
+    };
+    let ob: Vec<usize> = (0..cb.g.ne()).rev().collect();
+    let xb = sector_defaults(&cb, &ob);
+    let po = observe_point(&cb, &slot[0], &xb, st);
+    acc.inc("inplace_replacements");
+    acc.inc("executions");
+    acc.add("answers_consumed", xb.len() as u64);
+    let nv = acc.violations.len();
+    f(&cb, &slot[0], &po, 0, acc);
+    // a violation found here needs its history: the replay file carries the predecessor that occupied the slot
+    for v in acc.violations.iter_mut().skip(nv) {
+        if let Some(o) = v.replay.as_object_mut() {
+            o.insert(
+                "inplace_predecessor".into(),
+                json!({"graph": graph_json(&ca.g), "mom_variant": ca.spec.mom_variant, "mass_variant": ca.spec.mass_variant, "x": jf_vec(&xa)}),
+            );
+        }
+        v.what = format!("{} [after a different sampler was sampled in the same memory slot]", v.what);
+    }
 }
 
 fn sample_from_plan(plan: &Plan, acc: &mut Acc) {
@@ -1536,15 +1690,39 @@ pub fn replay_point(ctx: &Ctx, v: &Value) -> i32 {
         }
     };
     let kin = kin_from_json(&v["kin"]);
-    let r = match route(&case, &kin) {
+    let x = unjf_vec(&v["x"]);
+    let st = settings_from_json(&v["settings"]);
+    // a history of length two at one address: the predecessor is sampled in the slot first, then replaced
+    let mut slot: Vec<Routed> = vec![];
+    if let Some(pv) = v.get("inplace_predecessor") {
+        let pspec = CaseSpec {
+            g: graph_from_json(&pv["graph"]),
+            mom_variant: pv["mom_variant"].as_u64().unwrap_or(0) as usize,
+            mass_variant: pv["mass_variant"].as_u64().unwrap_or(0) as usize,
+            label: "replay-predecessor".into(),
+        };
+        if let Some(pc) = Case::new(&pspec) {
+            if let Ok(pr) = route(&pc, &pc.base_kin()) {
+                let px = unjf_vec(&pv["x"]);
+                slot.push(pr);
+                let _ = slot[0].sampler.sample(&px, &slot[0].ed, &st);
+                eprintln!("replay: predecessor sampled in the slot");
+            }
+        }
+    }
+    let r_new = match route(&case, &kin) {
         Ok(r) => r,
         Err(e) => {
             eprintln!("replay: build failed: {e}");
             return 1;
         }
     };
-    let x = unjf_vec(&v["x"]);
-    let st = settings_from_json(&v["settings"]);
+    if slot.is_empty() {
+        slot.push(r_new);
+    } else {
+        slot[0] = r_new;
+    }
+    let r = &slot[0];
     let po = observe_point(&case, &r, &x, &st);
     eprintln!("replay {}: x = {:?}", ctx.prop, x);
     eprintln!("  outcome: {:?}", po.out);
